@@ -10,9 +10,9 @@ P = {}
 
 P['C01'] = {
     'units': ['ring', 'stream'],
-    'technique': 'Verus function contracts + representation invariant on the real circular_buffer.rs functions (mechanically extracted each run)',
+    'technique': 'Verus function contracts + representation invariant on the real circular_buffer.rs functions and the stream.rs wrappers (mechanically extracted each run)',
     'level_text': 'Deductive proof for all states, sizes and operation arguments (no bound): wf is established by Buffer::new and preserved by produce/consume; window ranges, refusal of oversize commit/consume, readable+writable==capacity and the FIFO/partition/stability lemmas are postconditions or lemmas over those contracts.',
-    'level_note': 'Trusted: mmap aliasing (Circ::new/full_buffer, unsafe), Mutex atomicity (lock code dropped by rule X-LOCK), std BTreeMap/sort shims; stream.rs wrappers not under contract.',
+    'level_note': 'Trusted: mmap aliasing (Circ::new/full_buffer, unsafe), Mutex atomicity (lock code dropped by rule X-LOCK), std BTreeMap/sort shims. stream.rs: read_buf / write_buf are proved to be pure delegations (unit stream); new_stream, eof, wait_for_* are not under contract.',
     'assumptions': [
         'A-ALIAS: Circ::new / Circ::full_buffer (mmap double mapping, unsafe slice construction) are trusted: window element i is ring[(start+i) % cap]',
         'X-LOCK: each Mutex critical section is atomic; lock/condvar/Arc reference counting are dropped by the extraction (no concurrency claim)',
